@@ -100,15 +100,14 @@ class Ctx:
             self.snap = d
         return d
 
-    def qbe(self, src, target='x86_64-sysv', extra=(), timeout=10, stdin_name=None, cap=8 << 20, binary=None):
+    def qbe(self, src, target='x86_64-sysv', extra=(), timeout=10, stdin_name=None, cap=8 << 20, binary=None, env=None):
         """Run cproc-qbe on source text; returns (rc, stdout(str), stderr(str)). Output capped."""
         b = binary or os.path.join(self.snap, 'cproc-qbe')
         if isinstance(src, str):
             src = src.encode('utf-8', 'surrogateescape')
-        cmd = ['timeout', '-s', 'KILL', str(timeout), b, '-t', target] + list(extra)
+        cmd = _limit_prefix() + ['timeout', '-s', 'KILL', str(timeout), b, '-t', target] + list(extra)
         try:
-            p = subprocess.Popen(cmd, stdin=subprocess.PIPE, stdout=subprocess.PIPE, stderr=subprocess.PIPE,
-                                 preexec_fn=_limits)
+            p = subprocess.Popen(cmd, stdin=subprocess.PIPE, stdout=subprocess.PIPE, stderr=subprocess.PIPE, env=env)
             out, err = p.communicate(src, timeout=timeout + 5)
             rc = p.returncode
         except subprocess.TimeoutExpired:
@@ -285,18 +284,20 @@ class Ctx:
         return 1 if nviol else 0
 
 
-def _limits():
-    import resource
-    resource.setrlimit(resource.RLIMIT_AS, (4 << 30, 4 << 30))
-    resource.setrlimit(resource.RLIMIT_FSIZE, (256 << 20, 256 << 20))
-    resource.setrlimit(resource.RLIMIT_CORE, (0, 0))
+def _limit_prefix(aslimit=True):
+    """resource limits through prlimit(1) (a preexec_fn can deadlock when Popen is used from threads)"""
+    pre = ['prlimit', '--fsize=%d' % (256 << 20), '--core=0']
+    if aslimit:
+        pre.append('--as=%d' % (4 << 30))
+    return pre + ['--']
 
 
-def run_limited(cmd, input=None, timeout=10, cwd=None, env=None, cap=16 << 20):
-    """Run a subject binary under time/memory/output limits. Returns (rc, out bytes, err bytes)."""
+def run_limited(cmd, input=None, timeout=10, cwd=None, env=None, cap=16 << 20, aslimit=True):
+    """Run a subject binary under time/memory/output limits. Returns (rc, out bytes, err bytes); rc = -9 on timeout.
+    aslimit=False for sanitizer builds (ASan reserves terabytes of address space)."""
     try:
-        p = subprocess.Popen(cmd, stdin=subprocess.PIPE if input is not None else subprocess.DEVNULL,
-                             stdout=subprocess.PIPE, stderr=subprocess.PIPE, cwd=cwd, env=env, preexec_fn=_limits)
+        p = subprocess.Popen(_limit_prefix(aslimit) + list(cmd), stdin=subprocess.PIPE if input is not None else subprocess.DEVNULL,
+                             stdout=subprocess.PIPE, stderr=subprocess.PIPE, cwd=cwd, env=env)
         out, err = p.communicate(input, timeout=timeout)
         return p.returncode, out[:cap], err[:1 << 20]
     except subprocess.TimeoutExpired:
